@@ -282,10 +282,19 @@ func runNest(unit []int, depth int) (status, detail string) {
 			return "out-of-memory", firstLines(o, 3)
 		}
 		return "crash", firstLines(o, 3)
-	case <-time.After(300 * time.Second):
+	case <-time.After(nestTimeout(depth)):
 		cmd.Process.Kill()
-		return "hang", "no result within 300 s"
+		return "hang", fmt.Sprintf("no result within %v (a compile of a %d-level expression normally takes milliseconds)", nestTimeout(depth), depth)
 	}
+}
+
+// nestTimeout: shallow nestings compile in microseconds; 60 s is five orders of
+// magnitude of slack. Deep ones (10^6..10^7 levels, tens of MB of text) get 300 s.
+func nestTimeout(depth int) time.Duration {
+	if depth <= 1000 {
+		return 60 * time.Second
+	}
+	return 300 * time.Second
 }
 
 func firstLines(s string, n int) string {
@@ -430,10 +439,10 @@ func init() {
 		MinRefOutcomes: 1,
 		Spaces: func(tier string) []*explore.Space {
 			if tier == "thorough" {
-				return []*explore.Space{bytesSpace(4), tokenSpace(5, false), callSpace(), nestSpace(1, []int{10, 100, 1000, 10000, 100000, 1000000, 10000000}),
-					nestSpace(2, []int{10, 1000, 100000, 1000000}), nestSpace(3, []int{300, 100000})}
+				return []*explore.Space{bytesSpace(4), tokenSpace(5, false), callSpace(), nestSpace(1, []int{10, 25, 40, 60, 100, 150, 1000, 10000, 100000, 1000000, 10000000}),
+					nestSpace(2, []int{10, 30, 50, 1000, 100000, 1000000}), nestSpace(3, []int{20, 300, 100000})}
 			}
-			return []*explore.Space{bytesSpace(3), tokenSpace(4, true), callSpace(), nestSpace(1, []int{10, 100, 1000, 10000, 100000, 1000000}), nestSpace(2, []int{300, 100000})}
+			return []*explore.Space{bytesSpace(3), tokenSpace(4, true), callSpace(), nestSpace(1, []int{10, 25, 40, 60, 100, 150, 1000, 10000, 100000, 1000000}), nestSpace(2, []int{20, 45, 300, 100000})}
 		},
 	})
 }
